@@ -906,6 +906,10 @@ func c09Settle(r *sysRun, st *c09State, busy bool, final bool) {
 			// everything is replaced
 			st.reloadPending = true
 			slow := len(r.plan.GenProc) > 0 && len(r.plan.GenProc[0].DelaysMs) > 0 && r.plan.GenProc[0].DelaysMs[0] >= 300
+			if len(genLines(r.plan.Gens[1])) == 0 {
+				// a command without output has nothing to delay: it ends at once and the empty list is there
+				slow = false
+			}
 			elapsed := 0
 			for k := i + 1; k < len(r.plan.Events) && r.plan.Events[k].Kind != "settle"; k++ {
 				elapsed += r.plan.Events[k].DelayMs
